@@ -126,7 +126,9 @@ func extractSuggestion(p *core.Program, fi int, checker string, d core.Diag) (*s
 				}
 				if r.NoA {
 					if r.Kind == "expr" {
-						if _, ok := n.(*ast.BinaryExpr); !ok {
+						// Yoda: B must be the operands of this very comparison in swapped order
+						be, ok := n.(*ast.BinaryExpr)
+						if !ok || srcText(p, fi, be.Y)+" "+be.Op.String()+" "+srcText(p, fi, be.X) != body {
 							continue
 						}
 					}
